@@ -127,17 +127,20 @@ Proof.
   intros a. apply sim_refl.
 Qed.
 
-Lemma add_back_rounds_sim : forall k c mav versions fuel n merged pruned,
-  sim (add_back_rounds fuel (fail_at k c) mav versions n merged pruned)
-      (add_back_rounds fuel c mav versions n merged pruned).
+Lemma add_back_rounds_sim : forall k c mav versions fuel n merged pruned prev,
+  sim (add_back_rounds fuel (fail_at k c) mav versions n merged pruned prev)
+      (add_back_rounds fuel c mav versions n merged pruned prev).
 Proof.
   intros k c mav versions fuel.
-  induction fuel as [|fuel IH]; intros n merged pruned; [apply sim_refl|].
+  induction fuel as [|fuel IH]; intros n merged pruned prev; [apply sim_refl|].
   simpl.
   apply sim_bind; [apply add_back_round_sim|].
   intros a. destruct a as [[[m p] ch] n'].
   match goal with
-  | |- sim (if ?b then _ else _) _ => destruct b; [apply IH|apply sim_refl]
+  | |- sim (if ?b then _ else _) _ => destruct b; [|apply sim_refl]
+  end.
+  match goal with
+  | |- sim (if ?b then _ else _) _ => destruct b; [apply sim_refl|apply IH]
   end.
 Qed.
 
